@@ -150,6 +150,7 @@ func runC06(r *Run) {
 
 	// ---------- R2 ----------
 	disp := c06Dispatchers(P, r)
+	limiterSets := map[string]map[string]bool{}
 	for _, cn := range []string{"newCosmosAnteHandler", "newLegacyCosmosAnteHandlerEip712"} {
 		c := chains[cn]
 		if c == nil {
@@ -161,41 +162,45 @@ func runC06(r *Run) {
 		okA := ai == 1
 		detail := ""
 		if ai >= 0 && c.Decors[ai].Ctor != nil {
-			// variadic args contain MsgTypeURL(&MsgEthereumTx{})
-			has := false
-			backSlice(c.Decors[ai].Ctor.Common().Args...).Any(func(v ssa.Value) bool {
-				cc, ok := v.(*ssa.Call)
-				if !ok || callInfo(cc).Name != "MsgTypeURL" {
-					return false
-				}
-				if len(cc.Call.Args) == 1 && namedName(stripValue(cc.Call.Args[0]).Type()) == "MsgEthereumTx" {
-					has = true
-				}
-				return false
-			})
-			if !has {
+			always, sometimes, resolved := c06LimiterTypes(c.Decors[ai].Ctor)
+			limiterSets[cn] = always
+			if !resolved {
+				okA, detail = false, " (the limiter's constructor call could not be resolved to NewAuthzLimiterDecorator)"
+			} else if !always["MsgEthereumTx"] {
 				okA, detail = false, " (not configured with MsgTypeURL(&MsgEthereumTx{}))"
+			}
+			var cond []string
+			for t := range sometimes {
+				cond = append(cond, t)
+			}
+			sort.Strings(cond)
+			r.Check(len(cond) == 0, "R2", antePkg+"."+cn+"#barred-types-unconditional", where, "every barred type is listed unconditionally",
+				"the limiter of "+cn+" lists "+strings.Join(cond, ", ")+" only under a condition: on the routes/configurations where the condition fails the type can be granted and executed through nested grants")
+			// R8: dispatchers that are handed the message router run message trees without the ante handler; as long
+			// as one of them is wired, "exec on my behalf" must not be grantable
+			if len(disp) > 0 && resolved {
+				r.Check(always["MsgExec"], "R8", antePkg+"."+cn+"#exec-is-not-grantable", where, "the limiter bars grants of MsgExec", "the limiter of "+cn+" does not list MsgTypeURL(&authz.MsgExec{}) while "+strings.Join(disp, ", ")+" dispatch message trees through the message router without the ante handler: an account grants such a dispatcher's account GenericAuthorization(MsgExec); the dispatcher then runs MsgExec{dispatcher, [MsgExec{granter, [MsgEthereumTx signed by granter]}]} — authz accepts the innermost message implicitly (granter == grantee) and the Ethereum message executes with no fee deducted, no nonce rule, and a gas refund paid out of the fee collector")
 			}
 		} else {
 			okA = false
 		}
 		r.Check(okA, "R2", antePkg+"."+cn+"#authz-limiter-second", where, "AuthzLimiterDecorator(MsgEthereumTx, …) is second", "AuthzLimiterDecorator must be the second decorator and be configured with the MsgEthereumTx type URL"+detail+": chain is "+strings.Join(c.names(), " → "))
-		// R8: dispatchers that are handed the message router run message trees without the ante handler; as long
-		// as one of them is wired, "exec on my behalf" must not be grantable
-		if ai >= 0 && c.Decors[ai].Ctor != nil && len(disp) > 0 {
-			hasExec := false
-			backSlice(c.Decors[ai].Ctor.Common().Args...).Any(func(v ssa.Value) bool {
-				cc, ok := v.(*ssa.Call)
-				if ok && callInfo(cc).Name == "MsgTypeURL" && len(cc.Call.Args) == 1 {
-					t := stripValue(cc.Call.Args[0]).Type()
-					if namedName(t) == "MsgExec" && strings.HasSuffix(namedPkgPath(deref(t)), "x/authz") {
-						hasExec = true
-					}
-				}
-				return false
-			})
-			r.Check(hasExec, "R8", antePkg+"."+cn+"#exec-is-not-grantable", where, "the limiter bars grants of MsgExec", "the limiter of "+cn+" does not list MsgTypeURL(&authz.MsgExec{}) while "+strings.Join(disp, ", ")+" dispatch message trees through the message router without the ante handler: an account grants such a dispatcher's account GenericAuthorization(MsgExec); the dispatcher then runs MsgExec{dispatcher, [MsgExec{granter, [MsgEthereumTx signed by granter]}]} — authz accepts the innermost message implicitly (granter == grantee) and the Ethereum message executes with no fee deducted, no nonce rule, and a gas refund paid out of the fee collector")
+	}
+	if a, b := limiterSets["newCosmosAnteHandler"], limiterSets["newLegacyCosmosAnteHandlerEip712"]; a != nil && b != nil {
+		var diff []string
+		for t := range a {
+			if !b[t] {
+				diff = append(diff, t+" (Cosmos route only)")
+			}
 		}
+		for t := range b {
+			if !a[t] {
+				diff = append(diff, t+" (EIP-712 route only)")
+			}
+		}
+		sort.Strings(diff)
+		r.Check(len(diff) == 0, "R2", antePkg+"#limiters-agree", "", "both Cosmos routes bar the same message types",
+			"the two Cosmos routes bar different message types from grants: "+strings.Join(diff, ", ")+" — a type barred on one route is granted and executed through the other")
 	}
 	// the three chains are the only chains, and each constructor returns its chain itself (no selecting wrapper
 	// that substitutes a shorter chain for some contexts — block height, mode — in front of it)
@@ -863,4 +868,46 @@ func c06Dispatchers(P *Prog, r *Run) []string {
 	}
 	sort.Strings(out)
 	return out
+}
+
+// c06LimiterTypes resolves the message types a limiter is constructed with: the pointee type names of the
+// MsgTypeURL(&T{}) calls that flow into NewAuthzLimiterDecorator's variadic argument, looking through one
+// Haqq helper that builds the list. A type whose MsgTypeURL call does not dominate the constructor call is
+// listed only conditionally.
+func c06LimiterTypes(ctor ssa.CallInstruction) (always, sometimes map[string]bool, resolved bool) {
+	always, sometimes = map[string]bool{}, map[string]bool{}
+	collect := func(call ssa.CallInstruction) {
+		backSlice(call.Common().Args...).Any(func(v ssa.Value) bool {
+			cc, ok := v.(*ssa.Call)
+			if !ok || callInfo(cc).Name != "MsgTypeURL" || len(cc.Call.Args) != 1 {
+				return false
+			}
+			t := namedName(deref(stripValue(cc.Call.Args[0]).Type()))
+			if t == "" {
+				return false
+			}
+			if cc.Parent() == call.Parent() && dominates(cc.Block(), call.Block()) {
+				always[t] = true
+			} else {
+				sometimes[t] = true
+			}
+			return false
+		})
+	}
+	ci := callInfo(ctor)
+	if ci.Name == "NewAuthzLimiterDecorator" {
+		collect(ctor)
+		resolved = true
+	} else if ci.Static != nil && isHaqqPath(fnPkgPath(ci.Static)) {
+		eachCall(ci.Static, func(g CallInfo) {
+			if g.Name == "NewAuthzLimiterDecorator" {
+				collect(g.Instr)
+				resolved = true
+			}
+		})
+	}
+	for t := range always {
+		delete(sometimes, t)
+	}
+	return
 }
